@@ -147,7 +147,7 @@ CLAIMED = {
                 'The options hand-over is decided by the completion-flag typestate (optionsSetFinished set only under the mutex with the pending queue and every swapped-out batch known empty). '
                 'variables written after start-up. Right level: race freedom quantifies over all interleavings; a discipline check is '
                 'interleaving-independent and covers code paths a TSan run never executes. It decides the discipline, not the memory-model '
-                'theorem: rows justified by message-protocol ordering are listed as assumptions. Added clause (6): in Communicator::poll every unlocked walk of children is followed by a lock acquisition (the release that orders it before removeChild). (7) option-reading calls on the go paths come after waitOptionsSet (shared with C06.4). (8) the start-up seeding of the lazily filled maxSubDTM map covers every pawn split up to colour mirroring (loop evaluated), so search threads only look it up.',
+                'theorem: rows justified by message-protocol ordering are listed as assumptions. Added clause (6): in Communicator::poll every unlocked walk of children is followed by a lock acquisition (the release that orders it before removeChild). (7) option-reading calls on the go paths come after waitOptionsSet (shared with C06.4). (8) the start-up seeding of the lazily filled maxSubDTM map covers every pawn split up to colour mirroring (loop evaluated), so search threads only look it up. (9) every Notifier::wait outside a re-checking loop waits without a time limit (the hand-over edges the table relies on). (10) ~WorkerThread destroys its sub-workers only after its own thread, which polls their communicators unlocked, has been joined - found and fixed defect D20.',
         'design_ref': 'DESIGN.md section 2, C09 and Appendix A',
         'note': TB + ' Does not decide race freedom in the C++ memory-model sense for the whole engine; HB-protocol rows are assumptions (listed in the evidence).',
         'technique': 'custom static analysis: lock-set dataflow (K6), field-type obligations (K7), thread-role call-graph reachability (K8), dominance-based publication checks (K2), frozen who-may-write table for static storage (K5)',
@@ -162,7 +162,7 @@ CLAIMED = {
                 'ack->poll until acknowledged, quit->poll until acknowledged, flag-sensitive "a search that ran is stopped"; (6) a wake-up '
                 'consumed by the engine thread\'s inner wait loop is re-armed or pending options are handled before it sleeps again; (7) the completion-flag typestate of optionsSetFinished (shared with C09.4). Right '
                 'level: these are the necessary structural conditions of "no lost wake-up / no stale result" for every interleaving; the '
-                'composed liveness property itself is model-checking territory and is not claimed. Added clause (9): the upward acknowledgement is sent only under a test of everything has<X>Ack() depends on. (10) agreement between acknowledgement wait loops and the handlers they poll with. (11) startSearch and ponderHit compute `infinite` from the same conjuncts. (12) a blocking wait of the protocol thread on the engine thread (waitStop / waitOptionsSet) is reached only with both hold flags cleared or when no search object exists: no circular wait with the engine thread\'s `while (*ponder || *infinite)`. (13) createWorkers returns only after every helper it constructed - new slot or replaced slot - has signalled initialized.',
+                'composed liveness property itself is model-checking territory and is not claimed. Added clause (9): the upward acknowledgement is sent only under a test of everything has<X>Ack() depends on. (10) agreement between acknowledgement wait loops and the handlers they poll with. (11) startSearch and ponderHit compute `infinite` from the same conjuncts. (12) a blocking wait of the protocol thread on the engine thread (waitStop / waitOptionsSet) is reached only with both hold flags cleared or when no search object exists: no circular wait with the engine thread\'s `while (*ponder || *infinite)`. (13) createWorkers returns only after every helper it constructed - new slot or replaced slot - has signalled initialized. (14) = C09.9 the waits the hand-shakes are built on do not time out silently.',
         'design_ref': 'DESIGN.md section 2, C10',
         'note': TB + ' Does not decide absence of deadlock / lost wake-up over all interleavings of the composed protocol.',
         'technique': 'custom static analysis: lock-set dataflow, condition-variable discipline, must-pass-through / loop-shape rules on the CFG, sibling agreement of purge predicates',
@@ -277,6 +277,6 @@ for _p in ('C01', 'C02', 'C03', 'C04', 'C06', 'C07', 'C08', 'C09', 'C10', 'C11',
 NOTES = ('Technique family: static analysis only. Every verdict is computed from /repo\'s current source on every run (content-addressed '
          'fact cache under /verif/build/cache is keyed by the SHA-256 of every source/header/CMake file and of the extractor). Exit 0 = all '
          'obligations discharged; exit 1 = VIOLATION lines; exit 2 = analysis broken (anchor vanished, extractor failed, instance floor not met). '
-         'Twenty genuine defects found by the rules on the pinned tree were repaired with unguarded fix: commits in /repo and are listed as '
+         'Twenty-one genuine defects found by the rules on the pinned tree were repaired with unguarded fix: commits in /repo and are listed as '
          '"fixed:" in known_findings.json; three genuine violations of C02 that are not small-and-safe to repair are listed there as "known" '
          '(the C02 check prints a KNOWN-FINDING line for each and exits 0; any other violation of the same clauses is still reported). No hooks are needed (guard TEXEL_VERIF is unused).')
